@@ -143,10 +143,11 @@ def run(ctx) -> None:
         mass = [[A, c, t] for t in range(2, 1400) for c in range(4)]
         # sizes around the round numbers people pick for thresholds (a table that reorganises itself "at 1024 entries"
         # does so only when a send finds exactly that many): n-1, n, n+1 for powers of two and decimal round numbers
+        from .. import codedict
+
         rounds = [16, 32, 64, 100, 128, 200, 250, 256, 500, 512, 1000, 1024, 2000, 2048, 4096, 5000]
-        sizes = sorted({n + d for n in rounds for d in (-1, 0, 1)})
-        if ctx.quick:
-            sizes = [n for n in sizes if n <= 2049]
+        # plus every numeric constant of the code under test the reference tree does not have (n-1, n, n+1)
+        sizes = sorted(codedict.thresholds(rounds, low=3, cap=2049 if ctx.quick else 5001))
         sends = [[A, 0, 9000, True], [A, 1, 2, True], [B, 0, 2, True]]
         index = 0
         for size in sizes:
